@@ -301,12 +301,19 @@ class AlignmentCollector:
             yield self.process_alignments_in_region(current_region, alignment_storage.get_alignments())
         else:
             for new_region in split_regions:
+                # an alignment that reaches beyond its sub-region (it bridges a cut) must be compared with every gene it
+                # overlaps, as in a cluster that is not cut: genes are loaded for the extent of the alignments processed
+                # here, so the records such an alignment gets in the sub-regions it overlaps agree
+                gene_region = new_region
+                for bam_index, alignment in alignment_storage.get_alignments(new_region):
+                    gene_region = (min(gene_region[0], alignment.reference_start),
+                                   max(gene_region[1], alignment.reference_end - 1))
                 alignments = alignment_storage.get_alignments(new_region)
-                yield self.process_alignments_in_region(new_region, alignments)
+                yield self.process_alignments_in_region(new_region, alignments, gene_region)
 
-    def process_alignments_in_region(self, current_region, alignment_storage):
+    def process_alignments_in_region(self, current_region, alignment_storage, gene_region=None):
         logger.debug("Processing region %s" % str(current_region))
-        gene_info = self.get_gene_info_for_region(current_region)
+        gene_info = self.get_gene_info_for_region(gene_region if gene_region else current_region)
         if gene_info.empty():
             assignment_storage = self.process_intergenic(alignment_storage, current_region)
         else:
